@@ -690,8 +690,17 @@ def c03_12(ctx):
     for fn in (g, h):
         w = GuardWalker(ru.opaque)
         ex = w.run(fn.node.body)
-        noflag = [e for e in ex if e.kind == "return" and e.value is None]
-        ok = any(any("VERIFY_CHECK" in o for o in gi.f_opaques(e.cond)) for e in noflag)
+        # with the flag unset the opcode does nothing: every failing exit is reached only with the flag set, and a normal exit
+        # (an explicit return or the end of the function) exists without it -- however the guard is spelled
+        flag_atoms = sorted({o for e in ex for o in (gi.f_opaques(e.cond) if e.cond not in (True, False) else []) if isinstance(o, str) and "VERIFY_CHECK" in o and "flags" in o})
+        if len(flag_atoms) != 1:
+            raise Undecided("%s: the opcode's own flag is not tested in one recognisable atom (%s)" % (fn.name, flag_atoms[:2]))
+        fa = ("op", flag_atoms[0])
+        raises = [e for e in ex if e.kind == "raise"]
+        normal = [e for e in ex if e.kind in ("return", "fall") and (e.kind == "fall" or e.value is None or (isinstance(e.value, ast.Constant) and e.value.value is None))]
+        def discouraged(e):      # the one failure allowed without the flag: DISCOURAGE_UPGRADABLE_NOPS
+            return any(isinstance(o, str) and "DISCOURAGE" in o and sym.entails(e.cond, ("op", o)) for o in (gi.f_opaques(e.cond) if e.cond not in (True, False) else []))
+        ok = all(sym.entails(e.cond, fa) or discouraged(e) for e in raises) and any(not sym.entails(e.cond, fa) for e in normal)
         ctx.check(ok, "nop-without-flag:%s" % fn.name, ctx.where(fn), "%s is not a NOP when its flag is unset" % fn.name)
 
 
